@@ -1,11 +1,12 @@
 UNIT = dict(
-    sources={"i": "src/core/store/internal.rs", "e": "src/error.rs"},
+    sources={"i": "src/core/store/internal.rs", "o": "src/core/store/operations.rs", "e": "src/error.rs"},
     uses=["use std::sync::Arc;"],
     prelude=["upd_opaque.rs"],
-    rules=["updmisc"],
+    rules=["updmisc", "sig_upd"],
     items=[
         ("error_enum", "e"),
-        ("impl", "i", "FeoxStore", ["update_record_with_ttl", "update_record_with_ttl_bytes"], {"header": "impl FeoxStore {"}),
+        ("impl", "i", "FeoxStore", ["update_record_with_ttl", "update_record_with_ttl_bytes", "retire_expired_if_current"], {"header": "impl FeoxStore {"}),
+        ("impl", "o", "FeoxStore", ["delete_with_timestamp", "insert_with_timestamp_and_ttl_internal", "insert_bytes_with_expiry"], {"header": "impl FeoxStore {"}),
     ],
     contracts="contracts.vc",
     spec=["spec.rs"],
